@@ -385,7 +385,8 @@ pub use crate::model::model;
 #[cfg(loom_verif)]
 pub mod verif {
     pub use crate::rt::verif::{
-        fingerprint, path_flags, set_observer, thread_state, Branch, BranchKind, Iteration,
+        fingerprint, path_flags, path_pos, set_observer, thread_state, Branch, BranchKind,
+        Iteration,
     };
 }
 
